@@ -314,7 +314,11 @@ def mon_values(ctx):
                     return ("values.refusal", "refused %s changed values/dtype: %s" %
                             (name, "; ".join(diff_snapshots(ctx.pre, ctx.post, only=[i]))))
             elif name == "set_dtype":
-                if len(pre["values"]) != len(post["values"]):
+                # a string holding the bracketed text form of several n-tuples is legitimately
+                # expanded when the dtype becomes an n-tuple type: only a loss is judged there
+                grew_tuple = str(post["dtype"][1] if post["dtype"] else "").endswith("-tuple") and \
+                    len(post["values"]) > len(pre["values"])
+                if len(pre["values"]) != len(post["values"]) and not grew_tuple:
                     return ("values.dtype-change", "dtype change altered the number of values "
                             "%d -> %d" % (len(pre["values"]), len(post["values"])))
             elif name == "reassign_values":
